@@ -84,11 +84,19 @@ def main():
                "checks_first": {"violations": viol, "analysis_errors": errs}}
         dst = os.path.join(VERIF, "benign", rid)
         os.makedirs(dst, exist_ok=True)
+        if skip and os.path.isfile(os.path.join(dst, "meta.json")):
+            # re-evaluation of the checks only (worktree moved to a later commit): the suite result of the first run stands
+            prev = json.load(open(os.path.join(dst, "meta.json")))
+            out["confirmed"]["test_suite_passes_with_change"] = prev.get("confirmed", {}).get("test_suite_passes_with_change")
+            out["ran"]["test_suite_with_change"] = prev.get("ran", {}).get("test_suite_with_change")
+            out["note"] = "checks re-evaluated after the worktree was moved onto a later `fix:` commit; the suite ran on the earlier commit"
         shutil.copy(os.path.join(d, "patch.diff"), os.path.join(dst, "patch.diff"))
         shutil.copy(os.path.join(d, "demo.py"), os.path.join(dst, "demo.py"))
-        for extra in ("expected.json",):
-            if os.path.isfile(os.path.join(d, extra)) and os.path.getsize(os.path.join(d, extra)) < 400000:
-                shutil.copy(os.path.join(d, extra), os.path.join(dst, extra))
+        for extra in sorted(os.listdir(d)):        # the values the demo recorded on the clean tree (expected.json, reference.json, expected.pkl ...)
+            pth = os.path.join(d, extra)
+            if extra not in ("patch.diff", "demo.py", "meta.json") and not extra.endswith(".log") and os.path.isfile(pth) \
+                    and os.path.getsize(pth) < 400000:
+                shutil.copy(pth, os.path.join(dst, extra))
         json.dump(out, open(os.path.join(dst, "meta.json"), "w"), indent=1)
         print(f"{rid}: demo_ok={rc_demo == 0} tests_ok={tests_ok} VIOLATIONS={sorted(viol)} errors={sorted(errs)}")
         for c, ks in viol.items():
